@@ -15,8 +15,8 @@ import (
 )
 
 // accountsGlueBuildIncluded builds from configuration FILES: main.yaml (contents, paths, include:) and accounts.yaml
-// (users, groups, run-as).  The files are JSON, which is YAML; the keys are those of the configuration schema.
-func accountsGlueBuildIncluded(ic types.ImageConfiguration, repo *SRepo) E2EOut {
+// (users, groups, run-as, the first path mutations).  The files are JSON, which is YAML; the keys are those of the configuration schema.
+func accountsGlueBuildIncluded(ic types.ImageConfiguration, repo *SRepo, incPaths int) E2EOut {
 	dir, err := os.MkdirTemp("", "accounts-glue-")
 	if err != nil {
 		return E2EOut{Err: err}
@@ -24,10 +24,15 @@ func accountsGlueBuildIncluded(ic types.ImageConfiguration, repo *SRepo) E2EOut 
 	defer os.RemoveAll(dir)
 	repoDir := filepath.Join(dir, "repo")
 	kp := repo.WriteTo(repoDir)
-	inc := types.ImageConfiguration{Accounts: ic.Accounts}
+	if incPaths > len(ic.Paths) {
+		incPaths = len(ic.Paths)
+	}
+	// the first incPaths path mutations are declared by the included file, the rest by the including one
+	inc := types.ImageConfiguration{Accounts: ic.Accounts, Paths: ic.Paths[:incPaths]}
 	incPath := filepath.Join(dir, "accounts.yaml")
 	main := ic
 	main.Accounts = types.ImageAccounts{}
+	main.Paths = ic.Paths[incPaths:]
 	main.Include = incPath
 	main.Contents.RuntimeRepositories = []string{repoDir}
 	main.Contents.Keyring = []string{kp}
